@@ -407,6 +407,24 @@ let run_ksim (dump : Stdlib.String.t list) (hist : Stdlib.String.t) (out : Buffe
   | Model_fuel -> Buffer.add_string out (Printf.sprintf "PANIC tick=%d OUT-OF-FUEL\n" !tick))
   end
 
+
+(* ---------- C13: overrides as a key-list transformation ---------- *)
+let run_ovr (dump : Stdlib.String.t list) (hist : Stdlib.String.t) (out : Buffer.t) =
+  let ot = mk_toks (List.find (starts_with "OVERRIDES") dump) in
+  ignore (next ot);
+  let novs = next_int ot in
+  let ovs = repeat novs (fun () ->
+    let inm = next_n ot in let onm = next_n ot in
+    let ni = next_int ot in let im = repeat ni (fun () -> next_n ot) in
+    let no = next_int ot in let om = repeat no (fun () -> next_n ot) in
+    { ov_in_nm = inm; ov_out_nm = onm; ov_in_mods = im; ov_out_mods = om }) in
+  List.iteri (fun i lst ->
+    let codes = List.map (fun s -> n_of_int (int_of_string s)) (List.filter (fun s -> s <> "") (String.split_on_char ' ' lst)) in
+    let (o, r) = override_keys ovs codes in
+    let f l = String.concat " " (List.map (fun x -> string_of_int (int_of_n x)) l) in
+    (* OverrideStates is only cleaned when there are overrides: with an empty table `removed` keeps its previous value (empty) *)
+    Buffer.add_string out (Printf.sprintf "OV %d : %s ; %s\n" i (f o) (f r))) (String.split_on_char '|' hist)
+
 (* ---------- C10: switch compile + evaluate ---------- *)
 let rec read_bexpr t : bexpr =
   match next t with
@@ -523,6 +541,7 @@ let () =
   match Array.to_list Sys.argv with
   | _ :: "lsim" :: path :: _ -> sim_main run_lsim path
   | _ :: "ksim" :: path :: _ -> sim_main run_ksim path
+  | _ :: "ovr" :: path :: _ -> sim_main run_ovr path
   | _ :: "keys" :: _ -> keys_main ()
   | _ :: "swev" :: path :: _ -> swev_main path
   | _ -> prerr_endline "usage: driver <lsim FILE|keys>"; exit 2
